@@ -142,3 +142,14 @@ func ArmReaderAt(b []byte, conv int) io.ReaderAt {
 	}
 	return bytes.NewReader(b)
 }
+
+// ArmTarName is the reference for ArEntry.IsTarfile, from its documentation ("true for files that have `.tar.*` or
+// `.tar` suffix"): the (trimmed) member name ends in ".tar", or in ".tar.<ext>" where <ext> is one extension (no
+// further '.', no '/').
+func ArmTarName(n string) bool {
+	if strings.HasSuffix(n, ".tar") {
+		return true
+	}
+	i := strings.LastIndexByte(n, '.')
+	return i >= 0 && !strings.Contains(n[i:], "/") && strings.HasSuffix(n[:i], ".tar")
+}
